@@ -8,6 +8,14 @@
 // emitted as kind "unknown" (never accepted by the instance check).  Locals are numbered in order of
 // first definition, comparisons are normalised (only <, ==, not/and/or with negations pushed inwards),
 // so renaming locals or writing `a > b` as `b < a` does not change the output.
+//
+// Nothing is looked up by the name of an unexported identifier: the metrics state of a package is found by ROLE
+// (findMetricsVars: the package-level variables of struct type whose fields the exported Record* functions — and
+// the same-package functions they call — access with sync/atomic / under the struct's mutex); calls of same-package
+// functions that touch the state are INLINED (up to inlineDepth levels; pointer parameters are bound to the field
+// whose address they receive, *Metrics parameters / receivers to the variable); `&&` / `||` that touch the state
+// are compiled to control flow (short-circuit evaluation); locals assigned more than once
+// (a `done` flag) live in registers (`set`).
 package main
 
 import (
@@ -40,15 +48,24 @@ type MProg struct {
 	Pkg      string     `json:"pkg"`
 	Func     string     `json:"func"`
 	Struct   string     `json:"struct"`
+	Vars     []string   `json:"vars"` // the package-level variable(s) holding the metrics state, as the source names them
 	Params   []string   `json:"params"`
-	Opaque   []string   `json:"opaque"` // values modelled as extra arguments (clock reads, err.Error() ...)
-	Guard    string     `json:"guard"`  // the recognised "disabled => return" prologue, "" if absent
+	PKinds   []string   `json:"param_kinds"` // error | bool | int (what the harness has to pass), by type
+	Opaque   []string   `json:"opaque"`      // values modelled as extra arguments (clock reads, err.Error() ...)
+	Guard    string     `json:"guard"`       // the recognised "disabled => return" prologue, "" if absent
 	Sections []MSection `json:"sections"`
 }
 
+const inlineDepth = 3
+
 type mtr struct {
 	p       *packages.Package
-	gvar    types.Object // the package-level metrics variable
+	gvars   map[types.Object]string        // the package-level metrics variable(s) -> prefix of their location names
+	alias   map[types.Object]types.Object  // parameter / receiver of an inlined callee -> the metrics variable it is
+	ptr     map[types.Object]string        // pointer parameter of an inlined callee -> the field whose address it holds
+	funcs   map[types.Object]*ast.FuncDecl // functions and methods of the package with a body
+	touchM  map[*ast.FuncDecl]int          // 0 unknown, 1 in progress / no, 2 yes
+	stack   []*ast.FuncDecl                // inlined callees being translated
 	params  map[types.Object]int
 	nparams int
 	opaque  []string
@@ -57,33 +74,163 @@ type mtr struct {
 	nregs   int
 }
 
+// findMetricsVars: the metrics state of a package, by role: package-level variables declared in the package, of
+// struct (or pointer to struct) type, a field of which is the operand of a sync/atomic function / a sync/atomic
+// typed field / a mutex field used in an exported Record* function or in a same-package function reachable from
+// one (inlineDepth levels).  Sorted by name.
+func findMetricsVars(p *packages.Package, funcs map[types.Object]*ast.FuncDecl) []types.Object {
+	score := map[types.Object]int{}
+	var visit func(fd *ast.FuncDecl, depth int, seen map[*ast.FuncDecl]bool)
+	visit = func(fd *ast.FuncDecl, depth int, seen map[*ast.FuncDecl]bool) {
+		if seen[fd] || depth > inlineDepth {
+			return
+		}
+		seen[fd] = true
+		ast.Inspect(fd.Body, func(n ast.Node) bool {
+			call, ok := n.(*ast.CallExpr)
+			if !ok {
+				return true
+			}
+			var fobj types.Object
+			switch f := ast.Unparen(call.Fun).(type) {
+			case *ast.Ident:
+				fobj = p.TypesInfo.Uses[f]
+			case *ast.SelectorExpr:
+				fobj = p.TypesInfo.Uses[f.Sel]
+			}
+			fn, _ := fobj.(*types.Func)
+			if fn == nil || fn.Pkg() == nil {
+				return true
+			}
+			if callee := funcs[fn]; callee != nil {
+				visit(callee, depth+1, seen)
+			}
+			if pp := fn.Pkg().Path(); pp != "sync/atomic" && pp != "sync" {
+				return true
+			}
+			// operands: first argument (&X.F) of a function, receiver (X.F) of a method
+			var ops []ast.Expr
+			if sel, ok := ast.Unparen(call.Fun).(*ast.SelectorExpr); ok && fn.Type().(*types.Signature).Recv() != nil {
+				ops = append(ops, sel.X)
+			} else if len(call.Args) > 0 {
+				ops = append(ops, call.Args[0])
+			}
+			for _, e := range ops {
+				e = ast.Unparen(e)
+				if u, ok := e.(*ast.UnaryExpr); ok && u.Op == token.AND {
+					e = ast.Unparen(u.X)
+				}
+				sel, ok := e.(*ast.SelectorExpr)
+				if !ok {
+					continue
+				}
+				id, ok := ast.Unparen(sel.X).(*ast.Ident)
+				if !ok {
+					continue
+				}
+				v, _ := p.TypesInfo.Uses[id].(*types.Var)
+				if v == nil || v.Pkg() != p.Types || v.Parent() != p.Types.Scope() {
+					continue
+				}
+				if _, isStruct := deref(v.Type()).Underlying().(*types.Struct); isStruct {
+					score[v]++
+				}
+			}
+			return true
+		})
+	}
+	for _, f := range p.Syntax {
+		if strings.HasSuffix(p.Fset.Position(f.Pos()).Filename, "_test.go") {
+			continue
+		}
+		for _, d := range f.Decls {
+			if fd, ok := d.(*ast.FuncDecl); ok && isRecordFunc(fd) {
+				visit(fd, 0, map[*ast.FuncDecl]bool{})
+			}
+		}
+	}
+	var vars []types.Object
+	for v := range score {
+		vars = append(vars, v)
+	}
+	sort.Slice(vars, func(i, j int) bool { return vars[i].Name() < vars[j].Name() })
+	return vars
+}
+
+// isRecordFunc: the recording entry points of the public API: exported package-level functions named Record*
+func isRecordFunc(fd *ast.FuncDecl) bool {
+	return fd.Recv == nil && fd.Body != nil && strings.HasPrefix(fd.Name.Name, "Record")
+}
+
+func packageFuncs(p *packages.Package) map[types.Object]*ast.FuncDecl {
+	funcs := map[types.Object]*ast.FuncDecl{}
+	for _, f := range p.Syntax {
+		if strings.HasSuffix(p.Fset.Position(f.Pos()).Filename, "_test.go") {
+			continue
+		}
+		for _, d := range f.Decls {
+			if fd, ok := d.(*ast.FuncDecl); ok && fd.Body != nil {
+				if o := p.TypesInfo.Defs[fd.Name]; o != nil {
+					funcs[o] = fd
+				}
+			}
+		}
+	}
+	return funcs
+}
+
+func gvarPrefixes(vars []types.Object) map[types.Object]string {
+	m := map[types.Object]string{}
+	for _, v := range vars {
+		if len(vars) == 1 {
+			m[v] = ""
+		} else {
+			m[v] = v.Name() + "."
+		}
+	}
+	return m
+}
+
 func metricsProgs(byPath map[string]*packages.Package, out *Out) {
+	out.MetricsFields = map[string][]string{}
+	out.MetricsVars = map[string][]string{}
+	out.MetricsPublic = map[string]map[string]string{}
 	for _, short := range []string{"pkg/metrics", "pkg/sql/monitor"} {
 		p := byPath[mod+"/"+short]
 		if p == nil {
+			out.MetricsNotes = append(out.MetricsNotes, short+": package not found")
 			continue
 		}
-		gobj := p.Types.Scope().Lookup("globalMetrics")
-		if gobj == nil {
+		funcs := packageFuncs(p)
+		vars := findMetricsVars(p, funcs)
+		if len(vars) == 0 {
+			out.MetricsNotes = append(out.MetricsNotes, short+": no package-level struct variable is updated with sync/atomic by an exported Record* function: the metrics state was not found")
 			continue
 		}
-		st, ok := deref(gobj.Type()).Underlying().(*types.Struct)
-		if !ok {
-			continue
+		gv := gvarPrefixes(vars)
+		out.MetricsVars[short] = []string{}
+		for _, v := range vars {
+			out.MetricsVars[short] = append(out.MetricsVars[short], v.Name())
+			// field lists of the metrics structs (location numbering)
+			if st, ok := deref(v.Type()).Underlying().(*types.Struct); ok {
+				for i := 0; i < st.NumFields(); i++ {
+					out.MetricsFields[short] = append(out.MetricsFields[short], gv[v]+st.Field(i).Name())
+				}
+			}
 		}
-		_ = st
 		for _, f := range p.Syntax {
 			if strings.HasSuffix(p.Fset.Position(f.Pos()).Filename, "_test.go") {
 				continue
 			}
 			for _, d := range f.Decls {
 				fd, ok := d.(*ast.FuncDecl)
-				if !ok || fd.Recv != nil || fd.Body == nil || !strings.HasPrefix(fd.Name.Name, "Record") {
+				if !ok || !isRecordFunc(fd) {
 					continue
 				}
-				out.MetricsProgs = append(out.MetricsProgs, translateRecord(p, short, gobj, fd))
+				out.MetricsProgs = append(out.MetricsProgs, translateRecord(p, short, vars, funcs, fd))
 			}
 		}
+		out.MetricsPublic[short] = publicNames(p, vars, funcs)
 	}
 	sort.Slice(out.MetricsProgs, func(i, j int) bool {
 		a, b := out.MetricsProgs[i], out.MetricsProgs[j]
@@ -92,27 +239,6 @@ func metricsProgs(byPath map[string]*packages.Package, out *Out) {
 		}
 		return a.Func < b.Func
 	})
-	// field lists of the metrics structs (location numbering)
-	out.MetricsFields = map[string][]string{}
-	for _, short := range []string{"pkg/metrics", "pkg/sql/monitor"} {
-		p := byPath[mod+"/"+short]
-		if p == nil {
-			continue
-		}
-		gobj := p.Types.Scope().Lookup("globalMetrics")
-		if gobj == nil {
-			continue
-		}
-		if st, ok := deref(gobj.Type()).Underlying().(*types.Struct); ok {
-			for i := 0; i < st.NumFields(); i++ {
-				out.MetricsFields[short] = append(out.MetricsFields[short], st.Field(i).Name())
-			}
-		}
-		if out.MetricsPublic == nil {
-			out.MetricsPublic = map[string]map[string]string{}
-		}
-		out.MetricsPublic[short] = publicNames(p, gobj)
-	}
 }
 
 // recordCallers: every call site (outside the metrics package and outside tests) of a Record* function that records a
@@ -167,9 +293,9 @@ func recordCallers(pkgs []*packages.Package, out *Out) {
 // snapshot functions (GetStats / GetMetrics): `v := atomic.LoadInt64(&globalMetrics.F)` ... `Stats{K: v}`,
 // `Snapshot{K: atomic.LoadInt64(&globalMetrics.F)}`, `Snapshot{K: globalMetrics.F}`, and a `range globalMetrics.F`
 // that fills `snapshot.K[...]`.
-func publicNames(p *packages.Package, gobj types.Object) map[string]string {
+func publicNames(p *packages.Package, vars []types.Object, funcs map[types.Object]*ast.FuncDecl) map[string]string {
 	res := map[string]string{}
-	t := &mtr{p: p, gvar: gobj}
+	t := newMtr(p, vars, funcs)
 	for _, f := range p.Syntax {
 		for _, d := range f.Decls {
 			fd, ok := d.(*ast.FuncDecl)
@@ -235,14 +361,34 @@ func publicNames(p *packages.Package, gobj types.Object) map[string]string {
 	return res
 }
 
-func translateRecord(p *packages.Package, short string, gobj types.Object, fd *ast.FuncDecl) *MProg {
-	t := &mtr{p: p, gvar: gobj, params: map[types.Object]int{}, env: map[types.Object]interface{}{}, regs: map[types.Object]int{}}
-	mp := &MProg{Pkg: short, Func: fd.Name.Name, Struct: types.TypeString(deref(gobj.Type()), func(*types.Package) string { return "" })}
+func newMtr(p *packages.Package, vars []types.Object, funcs map[types.Object]*ast.FuncDecl) *mtr {
+	return &mtr{p: p, gvars: gvarPrefixes(vars), alias: map[types.Object]types.Object{}, ptr: map[types.Object]string{}, funcs: funcs,
+		touchM: map[*ast.FuncDecl]int{}, params: map[types.Object]int{}, env: map[types.Object]interface{}{}, regs: map[types.Object]int{}}
+}
+
+func paramKind(t types.Type) string {
+	if types.Identical(t, types.Universe.Lookup("error").Type()) {
+		return "error"
+	}
+	if b, ok := t.Underlying().(*types.Basic); ok && b.Info()&types.IsBoolean != 0 {
+		return "bool"
+	}
+	return "int"
+}
+
+func translateRecord(p *packages.Package, short string, vars []types.Object, funcs map[types.Object]*ast.FuncDecl, fd *ast.FuncDecl) *MProg {
+	t := newMtr(p, vars, funcs)
+	mp := &MProg{Pkg: short, Func: fd.Name.Name, Struct: types.TypeString(deref(vars[0].Type()), func(*types.Package) string { return "" })}
+	for _, v := range vars {
+		mp.Vars = append(mp.Vars, v.Name())
+	}
 	for _, fl := range fd.Type.Params.List {
 		for _, n := range fl.Names {
-			t.params[p.TypesInfo.Defs[n]] = t.nparams
+			obj := p.TypesInfo.Defs[n]
+			t.params[obj] = t.nparams
 			t.nparams++
 			mp.Params = append(mp.Params, n.Name)
+			mp.PKinds = append(mp.PKinds, paramKind(obj.Type()))
 		}
 	}
 	stmts := fd.Body.List
@@ -255,7 +401,7 @@ func translateRecord(p *packages.Package, short string, gobj types.Object, fd *a
 			}
 		}
 	}
-	mp.Sections = t.block(stmts, nil, "")
+	mp.Sections = t.block(stmts, nil, "", false)
 	mp.Opaque = t.opaque
 	return mp
 }
@@ -293,7 +439,20 @@ func (t *mtr) mentionsParam(n ast.Node) bool {
 	return found
 }
 
-// fieldOf: e is globalMetrics.F (or &globalMetrics.F, or globalMetrics.F[k]) -> F
+// isG: obj is a metrics variable, or a parameter / receiver of an inlined callee bound to one
+func (t *mtr) isG(obj types.Object) (prefix string, ok bool) {
+	if obj == nil {
+		return "", false
+	}
+	if g, ok := t.alias[obj]; ok {
+		obj = g
+	}
+	prefix, ok = t.gvars[obj]
+	return
+}
+
+// fieldOf: e is g.F (or &g.F, or g.F[k]) for a metrics variable g, or a pointer parameter of an inlined callee
+// that holds &g.F (addr, *addr) -> F
 func (t *mtr) fieldOf(e ast.Expr) (string, bool) {
 	e = ast.Unparen(e)
 	if u, ok := e.(*ast.UnaryExpr); ok && u.Op == token.AND {
@@ -302,15 +461,35 @@ func (t *mtr) fieldOf(e ast.Expr) (string, bool) {
 	if ix, ok := e.(*ast.IndexExpr); ok {
 		e = ast.Unparen(ix.X)
 	}
+	if st, ok := e.(*ast.StarExpr); ok {
+		e = ast.Unparen(st.X)
+	}
+	if id, ok := e.(*ast.Ident); ok {
+		f, ok := t.ptr[t.p.TypesInfo.Uses[id]]
+		return f, ok
+	}
 	sel, ok := e.(*ast.SelectorExpr)
 	if !ok {
 		return "", false
 	}
 	id, ok := ast.Unparen(sel.X).(*ast.Ident)
-	if !ok || t.p.TypesInfo.Uses[id] != t.gvar {
+	if !ok {
 		return "", false
 	}
-	return sel.Sel.Name, true
+	pre, ok := t.isG(t.p.TypesInfo.Uses[id])
+	if !ok {
+		return "", false
+	}
+	return pre + sel.Sel.Name, true
+}
+
+// isValueForm: e denotes the field itself (g.F, *addr), not its address
+func isValueForm(e ast.Expr) bool {
+	switch ast.Unparen(e).(type) {
+	case *ast.SelectorExpr, *ast.StarExpr:
+		return true
+	}
+	return false
 }
 
 // atomicCall: sync/atomic function call on a field, or a method of a sync/atomic type field
@@ -393,9 +572,16 @@ func (t *mtr) lockCall(s ast.Stmt) (method, field string, ok bool) {
 func (t *mtr) locs(n ast.Node) []string {
 	set := map[string]bool{}
 	ast.Inspect(n, func(x ast.Node) bool {
-		if sel, ok := x.(*ast.SelectorExpr); ok {
-			if id, ok := ast.Unparen(sel.X).(*ast.Ident); ok && t.p.TypesInfo.Uses[id] == t.gvar {
-				set[sel.Sel.Name] = true
+		switch y := x.(type) {
+		case *ast.SelectorExpr:
+			if id, ok := ast.Unparen(y.X).(*ast.Ident); ok {
+				if pre, ok := t.isG(t.p.TypesInfo.Uses[id]); ok {
+					set[pre+y.Sel.Name] = true
+				}
+			}
+		case *ast.Ident:
+			if f, ok := t.ptr[t.p.TypesInfo.Uses[y]]; ok {
+				set[f] = true
 			}
 		}
 		return true
@@ -417,21 +603,86 @@ func (t *mtr) mentionsGvarBare(n ast.Node) bool {
 			parents = parents[:len(parents)-1]
 			return true
 		}
-		if id, ok := x.(*ast.Ident); ok && t.p.TypesInfo.Uses[id] == t.gvar {
-			okSel := false
-			if len(parents) > 0 {
-				if sel, ok := parents[len(parents)-1].(*ast.SelectorExpr); ok && sel.X == id {
-					okSel = true
+		if id, ok := x.(*ast.Ident); ok {
+			if _, isg := t.isG(t.p.TypesInfo.Uses[id]); isg {
+				okSel := false
+				if len(parents) > 0 {
+					if sel, ok := parents[len(parents)-1].(*ast.SelectorExpr); ok && sel.X == id {
+						okSel = true
+					}
 				}
-			}
-			if !okSel {
-				bad = true
+				if !okSel {
+					bad = true
+				}
 			}
 		}
 		parents = append(parents, x)
 		return true
 	})
 	return bad
+}
+
+// calleeOf: the same-package function or method (with a body) a call expression statically calls
+func (t *mtr) calleeOf(call *ast.CallExpr) *ast.FuncDecl {
+	var fobj types.Object
+	switch f := ast.Unparen(call.Fun).(type) {
+	case *ast.Ident:
+		fobj = t.p.TypesInfo.Uses[f]
+	case *ast.SelectorExpr:
+		fobj = t.p.TypesInfo.Uses[f.Sel]
+	}
+	if fobj == nil {
+		return nil
+	}
+	return t.funcs[fobj]
+}
+
+// touches: the body of fd (or of a same-package function it calls) mentions a metrics variable
+func (t *mtr) touches(fd *ast.FuncDecl) bool {
+	switch t.touchM[fd] {
+	case 1:
+		return false
+	case 2:
+		return true
+	}
+	t.touchM[fd] = 1
+	found := false
+	ast.Inspect(fd.Body, func(x ast.Node) bool {
+		switch y := x.(type) {
+		case *ast.Ident:
+			if _, ok := t.gvars[t.p.TypesInfo.Uses[y]]; ok {
+				found = true
+			}
+		case *ast.CallExpr:
+			if c := t.calleeOf(y); c != nil && t.touches(c) {
+				found = true
+			}
+		}
+		return !found
+	})
+	if found {
+		t.touchM[fd] = 2
+	}
+	return found
+}
+
+// callsTouching: n contains a call of a same-package function that touches the metrics state
+func (t *mtr) callsTouching(n ast.Node) bool {
+	found := false
+	ast.Inspect(n, func(x ast.Node) bool {
+		if call, ok := x.(*ast.CallExpr); ok {
+			if c := t.calleeOf(call); c != nil && t.touches(c) {
+				found = true
+			}
+		}
+		return !found
+	})
+	return found
+}
+
+// shared: n reads or writes the metrics state in any way
+func (t *mtr) shared(n ast.Node) bool {
+	return len(t.locs(n)) > 0 || t.mentionsGvarBare(n) || t.callsTouching(n)
 }
 
 // ---- expressions ----
@@ -483,7 +734,7 @@ func (t *mtr) expr(e ast.Expr) (interface{}, bool) {
 		if tv, ok := t.p.TypesInfo.Types[x.Fun]; ok && tv.IsType() && len(x.Args) == 1 {
 			return t.expr(x.Args[0])
 		}
-		if len(t.locs(x)) == 0 && !t.mentionsGvarBare(x) {
+		if !t.shared(x) {
 			// pure with respect to the metrics struct (clock reads, err.Error(), len(..)): an opaque per-call value
 			return t.opaqueArg(types.ExprString(x)), true
 		}
@@ -496,12 +747,12 @@ func (t *mtr) expr(e ast.Expr) (interface{}, bool) {
 				return J{"add": []interface{}{a, b}}, true
 			}
 		}
-		if len(t.locs(x)) == 0 && !t.mentionsGvarBare(x) {
+		if !t.shared(x) {
 			return t.opaqueArg(types.ExprString(x)), true
 		}
 		return nil, false
 	}
-	if len(t.locs(e)) == 0 && !t.mentionsGvarBare(e) {
+	if !t.shared(e) {
 		return t.opaqueArg(types.ExprString(e)), true
 	}
 	return nil, false
@@ -571,6 +822,9 @@ func (t *mtr) cond(e ast.Expr, hoist func(ast.Expr) (interface{}, bool)) (interf
 	case *ast.BinaryExpr:
 		switch x.Op {
 		case token.LAND, token.LOR:
+			if hoist != nil && t.shared(x) {
+				return nil, false // never hoist an atomic call out of a short-circuit operand (jumpCond compiles these)
+			}
 			a, ok1 := t.cond(x.X, hoist)
 			b, ok2 := t.cond(x.Y, hoist)
 			if !ok1 || !ok2 {
@@ -618,10 +872,165 @@ func (t *mtr) unknown(n ast.Node, ctx interface{}, loc string) MSection {
 	return MSection{Cond: ctx, Loc: loc, Kind: "unknown", Text: t.text(n), Pos: t.pos(n)}
 }
 
-func (t *mtr) block(stmts []ast.Stmt, ctx interface{}, locked string) []MSection {
+// inlinable: s is a call statement of a same-package function / method that touches the metrics state (through its
+// body or through an argument)
+func (t *mtr) inlinable(s ast.Stmt) (*ast.CallExpr, *ast.FuncDecl, bool) {
+	es, ok := s.(*ast.ExprStmt)
+	if !ok {
+		return nil, nil, false
+	}
+	call, ok := ast.Unparen(es.X).(*ast.CallExpr)
+	if !ok {
+		return nil, nil, false
+	}
+	fd := t.calleeOf(call)
+	if fd == nil {
+		return nil, nil, false
+	}
+	if !t.touches(fd) && len(t.locs(call)) == 0 && !t.mentionsGvarBare(call) {
+		return nil, nil, false
+	}
+	return call, fd, true
+}
+
+// inline: the sections of the callee's body with its parameters bound to the arguments: a pointer parameter that
+// receives &g.F (or a bound pointer) stands for the field, a parameter / receiver that receives the metrics variable
+// stands for it, every other parameter is a pure local
+func (t *mtr) inline(s ast.Stmt, call *ast.CallExpr, fd *ast.FuncDecl, ctx interface{}, locked string) []MSection {
+	fail := func() []MSection { return []MSection{t.unknown(s, ctx, "?")} }
+	if len(t.stack) >= inlineDepth {
+		return fail()
+	}
+	for _, f := range t.stack {
+		if f == fd {
+			return fail()
+		}
+	}
+	type binding struct {
+		obj types.Object
+		arg ast.Expr
+	}
+	var bs []binding
+	if fd.Recv != nil && len(fd.Recv.List) == 1 && len(fd.Recv.List[0].Names) == 1 {
+		sel, ok := ast.Unparen(call.Fun).(*ast.SelectorExpr)
+		if !ok {
+			return fail()
+		}
+		bs = append(bs, binding{t.p.TypesInfo.Defs[fd.Recv.List[0].Names[0]], sel.X})
+	}
+	var pobjs []types.Object
+	for _, fl := range fd.Type.Params.List {
+		if _, variadic := fl.Type.(*ast.Ellipsis); variadic {
+			return fail()
+		}
+		if len(fl.Names) == 0 {
+			pobjs = append(pobjs, nil)
+		}
+		for _, n := range fl.Names {
+			pobjs = append(pobjs, t.p.TypesInfo.Defs[n])
+		}
+	}
+	if len(pobjs) != len(call.Args) {
+		return fail()
+	}
+	for i, o := range pobjs {
+		bs = append(bs, binding{o, call.Args[i]})
+	}
+	// evaluate the bindings in the caller's environment, then install them
+	newPtr, newAlias, newEnv := map[types.Object]string{}, map[types.Object]types.Object{}, map[types.Object]interface{}{}
+	for _, b := range bs {
+		arg := ast.Unparen(b.arg)
+		if u, ok := arg.(*ast.UnaryExpr); ok && u.Op == token.AND {
+			if id, ok := ast.Unparen(u.X).(*ast.Ident); ok {
+				arg = id // &g for a struct-valued metrics variable
+			}
+		}
+		if id, ok := arg.(*ast.Ident); ok {
+			obj := t.p.TypesInfo.Uses[id]
+			if _, isg := t.isG(obj); isg {
+				if g, ok := t.alias[obj]; ok {
+					obj = g
+				}
+				if b.obj != nil {
+					newAlias[b.obj] = obj
+				}
+				continue
+			}
+		}
+		if f, ok := t.fieldOf(b.arg); ok && !isValueForm(b.arg) {
+			if _, isIdx := ast.Unparen(b.arg).(*ast.IndexExpr); !isIdx {
+				if b.obj != nil {
+					newPtr[b.obj] = f
+				}
+				continue
+			}
+		}
+		if t.shared(b.arg) {
+			return fail()
+		}
+		v, ok := t.expr(b.arg)
+		if !ok {
+			return fail()
+		}
+		if b.obj != nil {
+			newEnv[b.obj] = v
+		}
+	}
+	for k, v := range newPtr {
+		t.ptr[k] = v
+	}
+	for k, v := range newAlias {
+		t.alias[k] = v
+	}
+	for k, v := range newEnv {
+		t.env[k] = v
+	}
+	t.stack = append(t.stack, fd)
+	out := t.block(fd.Body.List, ctx, locked, true)
+	t.stack = t.stack[:len(t.stack)-1]
+	for k := range newPtr {
+		delete(t.ptr, k)
+	}
+	for k := range newAlias {
+		delete(t.alias, k)
+	}
+	return out
+}
+
+// block: retOK = stmts is the whole body of an inlined callee (a trailing `return`, and `return` inside a trailing
+// read-modify-write group, end the callee)
+func (t *mtr) block(stmts []ast.Stmt, ctx interface{}, locked string, retOK bool) []MSection {
 	var out []MSection
 	for i := 0; i < len(stmts); i++ {
 		s := stmts[i]
+		if rs, ok := s.(*ast.ReturnStmt); ok && retOK && i == len(stmts)-1 && len(rs.Results) == 0 {
+			continue
+		}
+		if call, fd, ok := t.inlinable(s); ok {
+			out = append(out, t.inline(s, call, fd, ctx, locked)...)
+			continue
+		}
+		// m := g  (a local name for the metrics variable)
+		if as, ok := s.(*ast.AssignStmt); ok && as.Tok == token.DEFINE && len(as.Lhs) == 1 && len(as.Rhs) == 1 {
+			if lid, ok := as.Lhs[0].(*ast.Ident); ok {
+				if rid, ok := ast.Unparen(as.Rhs[0]).(*ast.Ident); ok {
+					robj := t.p.TypesInfo.Uses[rid]
+					if _, isg := t.isG(robj); isg && t.p.TypesInfo.Defs[lid] != nil {
+						if g, ok := t.alias[robj]; ok {
+							robj = g
+						}
+						t.alias[t.p.TypesInfo.Defs[lid]] = robj
+						continue
+					}
+				}
+			}
+		}
+		// control leaves the function / runs elsewhere: nothing after it can be described as a sequence of sections
+		// (statements that touch a field handle `return` themselves: rmwc.stmt, or the recursive call for a pure `if`)
+		if len(t.locs(s)) == 0 && escapesControl(s) {
+			out = append(out, t.unknown(s, ctx, "?"))
+			continue
+		}
 		// lock regions
 		if m, f, ok := t.lockCall(s); ok {
 			if m == "Lock" && locked == "" {
@@ -633,7 +1042,7 @@ func (t *mtr) block(stmts []ast.Stmt, ctx interface{}, locked string) []MSection
 					}
 				}
 				if j < len(stmts) {
-					out = append(out, t.block(stmts[i+1:j], ctx, f)...)
+					out = append(out, t.block(stmts[i+1:j], ctx, f, false)...)
 					i = j
 					continue
 				}
@@ -668,20 +1077,24 @@ func (t *mtr) block(stmts []ast.Stmt, ctx interface{}, locked string) []MSection
 				continue
 			}
 		}
-		if is, ok := s.(*ast.IfStmt); ok && is.Init == nil && len(t.locs(is.Cond)) == 0 {
+		if is, ok := s.(*ast.IfStmt); ok && is.Init == nil && !t.shared(is.Cond) {
 			if c, ok := t.cond(is.Cond, nil); ok {
-				out = append(out, t.block(is.Body.List, jand(ctx, c), locked)...)
+				out = append(out, t.block(is.Body.List, jand(ctx, c), locked, false)...)
 				switch e := is.Else.(type) {
 				case nil:
 				case *ast.BlockStmt:
-					out = append(out, t.block(e.List, jand(ctx, jnot(c)), locked)...)
+					out = append(out, t.block(e.List, jand(ctx, jnot(c)), locked, false)...)
 				default:
-					out = append(out, t.block([]ast.Stmt{e}, jand(ctx, jnot(c)), locked)...)
+					out = append(out, t.block([]ast.Stmt{e}, jand(ctx, jnot(c)), locked, false)...)
 				}
 				continue
 			}
 		}
 		if len(ls) == 0 {
+			if t.callsTouching(s) {
+				// the state is touched inside a callee that is not called as a statement of its own
+				out = append(out, t.unknown(s, ctx, "?"))
+			}
 			continue // a statement without shared effect (e.g. a discarded pure call)
 		}
 		if len(ls) > 1 {
@@ -722,10 +1135,46 @@ func (t *mtr) block(stmts []ast.Stmt, ctx interface{}, locked string) []MSection
 				break
 			}
 		}
-		out = append(out, t.rmw(stmts[i:j], ctx, loc))
+		out = append(out, t.rmw(stmts[i:j], ctx, loc, retOK && j == len(stmts)))
 		i = j - 1
 	}
 	return out
+}
+
+// escapesControl: s is, or contains outside a function literal and outside the statements the translator compiles
+// itself (loops and conditionals around atomic operations), a return / goto / labelled branch / go / defer / panic
+func escapesControl(s ast.Stmt) bool {
+	switch x := s.(type) {
+	case *ast.ReturnStmt, *ast.GoStmt, *ast.DeferStmt, *ast.LabeledStmt:
+		return true
+	case *ast.BranchStmt:
+		return true
+	case *ast.ExprStmt:
+		if call, ok := x.X.(*ast.CallExpr); ok {
+			if id, ok := call.Fun.(*ast.Ident); ok && id.Name == "panic" {
+				return true
+			}
+		}
+	case *ast.IfStmt:
+		if x.Init != nil && escapesControl(x.Init) {
+			return true
+		}
+		for _, b := range x.Body.List {
+			if escapesControl(b) {
+				return true
+			}
+		}
+		if x.Else != nil {
+			return escapesControl(x.Else)
+		}
+	case *ast.BlockStmt:
+		for _, b := range x.List {
+			if escapesControl(b) {
+				return true
+			}
+		}
+	}
+	return false
 }
 
 // usesLocalOf: s mentions a local variable defined in one of the earlier statements
@@ -791,6 +1240,8 @@ type rmwc struct {
 	nlab   int
 	plain  bool
 	bad    bool
+	mut    map[types.Object]bool // locals assigned more than once: kept in registers (set)
+	retLab int                   // where `return` goes (0: not allowed here)
 }
 
 func (c *rmwc) emit(j J)      { c.ins = append(c.ins, j) }
@@ -844,7 +1295,7 @@ func (c *rmwc) value(e ast.Expr, into int) (interface{}, bool) {
 		return nil, false
 	}
 	if f, ok := c.t.fieldOf(e); ok && f == c.loc {
-		if _, isSel := e.(*ast.SelectorExpr); isSel {
+		if isValueForm(e) {
 			// plain (non-atomic) read of the field
 			c.plain = true
 			r := into
@@ -884,6 +1335,41 @@ func (c *rmwc) condOf(e ast.Expr) (interface{}, bool) {
 	})
 }
 
+// jumpCond: code that jumps to target iff e evaluates to onTrue and falls through otherwise.  `&&` / `||` whose right
+// operands touch the shared state are compiled to control flow: the right operand (an atomic call) is executed only
+// when the left one does not decide — Go's short-circuit evaluation.  Only a pure `&&` / `||` (evaluating it eagerly
+// is unobservable) stays one condition; atomic calls in the operands of a comparison are hoisted in evaluation order
+// (cond refuses to hoist anything out of an operand of `&&` / `||`).
+func (c *rmwc) jumpCond(e ast.Expr, onTrue bool, target int) {
+	e = ast.Unparen(e)
+	if u, ok := e.(*ast.UnaryExpr); ok && u.Op == token.NOT {
+		c.jumpCond(u.X, !onTrue, target)
+		return
+	}
+	if b, ok := e.(*ast.BinaryExpr); ok && (b.Op == token.LAND || b.Op == token.LOR) && c.t.shared(b) {
+		if (b.Op == token.LAND) == onTrue {
+			// a && b reached with "jump if true" (a || b with "jump if false"): the left operand alone decides against
+			skip := c.newLabel()
+			c.jumpCond(b.X, !onTrue, skip)
+			c.jumpCond(b.Y, onTrue, target)
+			c.place(skip)
+		} else {
+			c.jumpCond(b.X, onTrue, target)
+			c.jumpCond(b.Y, onTrue, target)
+		}
+		return
+	}
+	cd, ok := c.condOf(e)
+	if !ok {
+		c.bad = true
+		return
+	}
+	if !onTrue {
+		cd = jnot(cd)
+	}
+	c.emit(J{"op": "jmpif", "c": cd, "label": target})
+}
+
 type loopCtx struct{ start, exit int }
 
 func (c *rmwc) stmts(ss []ast.Stmt, lp *loopCtx) {
@@ -908,11 +1394,15 @@ func (c *rmwc) stmt(s ast.Stmt, lp *loopCtx) {
 	case *ast.AssignStmt:
 		if len(x.Lhs) == 1 && len(x.Rhs) == 1 {
 			if id, ok := x.Lhs[0].(*ast.Ident); ok && (x.Tok == token.DEFINE || x.Tok == token.ASSIGN) {
-				if len(c.t.locs(x.Rhs[0])) == 0 {
+				if !c.t.shared(x.Rhs[0]) {
 					if v, ok := c.t.expr(x.Rhs[0]); ok {
 						obj := c.t.p.TypesInfo.Defs[id]
 						if obj == nil {
 							obj = c.t.p.TypesInfo.Uses[id]
+						}
+						if c.mut[obj] {
+							c.emit(J{"op": "set", "r": c.regOf(id), "e": v})
+							return
 						}
 						if _, isReg := c.t.regs[obj]; !isReg {
 							c.t.env[obj] = v
@@ -934,7 +1424,7 @@ func (c *rmwc) stmt(s ast.Stmt, lp *loopCtx) {
 			}
 			// plain write of the field:  g.F = e   /  g.F += e
 			if f, ok := c.t.fieldOf(x.Lhs[0]); ok && f == c.loc {
-				if _, isSel := ast.Unparen(x.Lhs[0]).(*ast.SelectorExpr); isSel {
+				if isValueForm(x.Lhs[0]) {
 					c.plain = true
 					switch x.Tok {
 					case token.ASSIGN:
@@ -956,7 +1446,7 @@ func (c *rmwc) stmt(s ast.Stmt, lp *loopCtx) {
 		c.bad = true
 	case *ast.IncDecStmt:
 		if f, ok := c.t.fieldOf(x.X); ok && f == c.loc {
-			if _, isSel := ast.Unparen(x.X).(*ast.SelectorExpr); isSel {
+			if isValueForm(x.X) {
 				c.plain = true
 				d := int64(1)
 				if x.Tok == token.DEC {
@@ -990,17 +1480,12 @@ func (c *rmwc) stmt(s ast.Stmt, lp *loopCtx) {
 		if x.Init != nil {
 			c.stmt(x.Init, lp)
 		}
-		cd, ok := c.condOf(x.Cond)
-		if !ok {
-			c.bad = true
-			return
-		}
 		if lp != nil && x.Else == nil && isBreak(x.Body) {
-			c.emit(J{"op": "jmpif", "c": cd, "label": lp.exit})
+			c.jumpCond(x.Cond, true, lp.exit)
 			return
 		}
 		lelse, lend := c.newLabel(), c.newLabel()
-		c.emit(J{"op": "jmpif", "c": jnot(cd), "label": lelse})
+		c.jumpCond(x.Cond, false, lelse)
 		c.stmts(x.Body.List, lp)
 		if x.Else != nil {
 			c.emit(J{"op": "jmp", "label": lend})
@@ -1018,12 +1503,7 @@ func (c *rmwc) stmt(s ast.Stmt, lp *loopCtx) {
 		l := &loopCtx{start: c.newLabel(), exit: c.newLabel()}
 		c.place(l.start)
 		if x.Cond != nil {
-			cd, ok := c.condOf(x.Cond)
-			if !ok {
-				c.bad = true
-				return
-			}
-			c.emit(J{"op": "jmpif", "c": jnot(cd), "label": l.exit})
+			c.jumpCond(x.Cond, false, l.exit)
 		}
 		c.stmts(x.Body.List, l)
 		c.emit(J{"op": "jmp", "label": l.start})
@@ -1038,17 +1518,66 @@ func (c *rmwc) stmt(s ast.Stmt, lp *loopCtx) {
 			return
 		}
 		c.bad = true
+	case *ast.ReturnStmt:
+		// inside an inlined callee whose body ends with this group: the callee is over
+		if c.retLab != 0 && len(x.Results) == 0 {
+			c.emit(J{"op": "jmp", "label": c.retLab})
+			return
+		}
+		c.bad = true
 	default:
 		c.bad = true
 	}
 }
 
-func (t *mtr) rmw(ss []ast.Stmt, ctx interface{}, loc string) MSection {
+// mutableLocals: locals that are assigned (not only defined) inside ss
+func (t *mtr) mutableLocals(ss []ast.Stmt) map[types.Object]bool {
+	mut := map[types.Object]bool{}
+	for _, s := range ss {
+		ast.Inspect(s, func(x ast.Node) bool {
+			if as, ok := x.(*ast.AssignStmt); ok && as.Tok != token.DEFINE {
+				for _, l := range as.Lhs {
+					if id, ok := l.(*ast.Ident); ok {
+						if o, _ := t.p.TypesInfo.Uses[id].(*types.Var); o != nil && !o.IsField() && o.Parent() != t.p.Types.Scope() {
+							mut[o] = true
+						}
+					}
+				}
+			}
+			return true
+		})
+	}
+	return mut
+}
+
+func (t *mtr) rmw(ss []ast.Stmt, ctx interface{}, loc string, allowRet bool) MSection {
 	saveRegs, saveN := t.regs, t.nregs
 	t.regs, t.nregs = map[types.Object]int{}, 0
 	defer func() { t.regs, t.nregs = saveRegs, saveN }()
-	c := &rmwc{t: t, loc: loc, labels: map[int]int{}}
+	c := &rmwc{t: t, loc: loc, labels: map[int]int{}, mut: t.mutableLocals(ss)}
+	// a mutable local defined before the group (done := false) enters with its value
+	var pre []types.Object
+	for o := range c.mut {
+		if _, isParam := t.params[o]; isParam {
+			c.bad = true
+		}
+		if _, ok := t.env[o]; ok {
+			pre = append(pre, o)
+		}
+	}
+	sort.Slice(pre, func(i, j int) bool { return pre[i].Pos() < pre[j].Pos() })
+	for _, o := range pre {
+		r := c.newReg()
+		t.regs[o] = r
+		c.emit(J{"op": "set", "r": r, "e": t.env[o]})
+	}
+	if allowRet {
+		c.retLab = c.newLabel()
+	}
 	c.stmts(ss, nil)
+	if allowRet {
+		c.place(c.retLab)
+	}
 	c.emit(J{"op": "ret"})
 	if c.bad {
 		return t.unknown(ss[0], ctx, loc)
